@@ -50,6 +50,7 @@ type sweepSpec struct {
 	csv     bool                          // after the peer went silent the csv matures inside the swept run
 	chains  []string                      // restrict the scenario's chain
 	payMine bool                          // blocks arrive during the claim-payment loop and payments fail first
+	lags    bool                          // a height query may answer a tip below the true one (also while recovering)
 }
 
 func (s sweepScenario) key() string {
@@ -68,7 +69,12 @@ func genSweepScenario(t *rapid.T, spec sweepSpec) sweepScenario {
 		Chain:       rapid.SampledFrom([]string{"btc", "lbtc"}).Draw(t, "swChain"),
 		LND:         rapid.Bool().Draw(t, "swLnd"),
 	}
-	s.FaultCall = rapid.SampledFrom(sweepFaultCalls).Draw(t, "swFault")
+	faults, rfaults := sweepFaultCalls, recoverFaultCalls
+	if spec.lags {
+		faults = append([]string{"heightlag", "heightlag"}, faults...)
+		rfaults = append([]string{"heightlag", "heightlag"}, rfaults...)
+	}
+	s.FaultCall = rapid.SampledFrom(faults).Draw(t, "swFault")
 	if s.FaultCall != "" {
 		s.FaultNode = rapid.SampledFrom([]string{"alice", "alice", "bob"}).Draw(t, "swFaultNode")
 		s.FaultSkip = rapid.IntRange(0, 2).Draw(t, "swFaultSkip")
@@ -78,7 +84,7 @@ func genSweepScenario(t *rapid.T, spec sweepSpec) sweepScenario {
 		s.Chain = rapid.SampledFrom(spec.chains).Draw(t, "swChainRestricted")
 	}
 	if rapid.IntRange(0, 2).Draw(t, "swRecoverFaultWanted") == 0 {
-		s.RecoverFault = rapid.SampledFrom(recoverFaultCalls).Draw(t, "swRecoverFault")
+		s.RecoverFault = rapid.SampledFrom(rfaults).Draw(t, "swRecoverFault")
 	}
 	if spec.payMine {
 		// the first claim attempts fail cleanly while blocks arrive
@@ -120,6 +126,12 @@ func runSweepScenario(t *rapid.T, s sweepScenario, crashAt int, monitor func(*Hi
 				q = append(q, sim.PayFailClean)
 			}
 			n.PayPlan[kind] = append(q, o)
+		} else if s.FaultCall == "heightlag" {
+			var q []uint32
+			for i := 0; i < s.FaultSkip; i++ {
+				q = append(q, 0)
+			}
+			n.HeightLag[s.Chain] = append(q, 3)
 		} else {
 			var q []sim.FaultKind
 			for i := 0; i < s.FaultSkip; i++ {
@@ -291,7 +303,7 @@ func TestC07CrashSweep(t *testing.T) {
 func TestC13CrashSweep(t *testing.T) {
 	col := stats.Get("C13.sweep")
 	rapid.Check(t, func(t *rapid.T) {
-		crashSweep(t, col, sweepSpec{monitor: func(c *stats.Collector) func(*Hist) {
+		crashSweep(t, col, sweepSpec{lags: true, monitor: func(c *stats.Collector) func(*Hist) {
 			return monitorC13(c, map[anchorKey]uint32{}, map[string]int{}, map[string]int{})
 		}})
 	})
